@@ -57,11 +57,34 @@ class Ctx:
         return True
 
     # ------------------------------------------------------------------------------------------
-    def tlc(self, spec_dir, module, cfg_path, tag, **kw):
+    def tlc(self, spec_dir, module, cfg_path, tag, defs=None, **kw):
         """Runs TLC exhaustively (or simulate) and accumulates statistics.  Returns TlcResult.
-        A machinery error raises; a property violation is returned to the caller."""
+        A machinery error raises; a property violation is returned to the caller.
+        defs: {constant: TLA+ expression} for constants a cfg file cannot express (sequences, functions):
+        a model module MC_<..> EXTENDS <module> is generated in .build with the definitions and the cfg
+        gets `constant <- definition` substitutions."""
         sd = os.path.join(vlib.VERIF, "spec", spec_dir)
-        res = vlib.run_tlc(sd, module, cfg_path, "%s_%s" % (self.prop, tag), **kw)
+        if defs:
+            os.makedirs(vlib.BUILD, exist_ok=True)
+            mc = "MC_%s_%s" % (self.prop, tag)
+            with open(os.path.join(vlib.BUILD, mc + ".tla"), "w") as f:
+                f.write("---- MODULE %s ----\nEXTENDS %s\n" % (mc, module))
+                for k, v in defs.items():
+                    f.write("def_%s == %s\n" % (k, v))
+                f.write("====\n")
+            cfg2 = os.path.join(vlib.BUILD, mc + ".cfg")
+            with open(cfg2, "w") as f:
+                f.write(open(cfg_path).read())
+                f.write("\nCONSTANTS\n" + "\n".join("  %s <- def_%s" % (k, k) for k in defs) + "\n")
+            jo = list(kw.pop("jvm_opts", None) or []) + ["-DTLA-Library=" + sd]
+            res = vlib.run_tlc(vlib.BUILD, mc, cfg2, "%s_%s" % (self.prop, tag), jvm_opts=jo, **kw)
+            for fn in (mc + ".tla", mc + ".cfg"):
+                try:
+                    os.remove(os.path.join(vlib.BUILD, fn))
+                except OSError:
+                    pass
+        else:
+            res = vlib.run_tlc(sd, module, cfg_path, "%s_%s" % (self.prop, tag), **kw)
         if res.error and not res.violation:
             raise MachineryError("TLC failed on %s/%s (%s):\n%s" % (spec_dir, module, cfg_path, res.error))
         self.states += res.distinct
@@ -163,7 +186,7 @@ def scenario_text(script_path, sid):
 
 def graph_replay(ctx, spec_dir, module, cfg, tag, replayer, proj_keys, header_fn=None, merge_re=None,
                  max_paths=None, extra_random=0, must_take=None, tlc_kw=None, replayer_args=None,
-                 replay_timeout=900, key_fn=None, terminal=True, constants=None, env=None):
+                 replay_timeout=900, key_fn=None, terminal=True, constants=None, env=None, defs=None):
     """TLC exhaustive run with state-graph dump; invariants checked by TLC; an edge-covering path
     set is replayed on the implementation through `replayer` (path of a built binary).
     Returns (TlcResult, graph or None)."""
@@ -176,7 +199,7 @@ def graph_replay(ctx, spec_dir, module, cfg, tag, replayer, proj_keys, header_fn
         cfg_path = os.path.join(vlib.BUILD, "%s_%s.cfg" % (ctx.prop, tag))
         vlib.write_cfg(cfg_path, base, constants)
     kw = dict(tlc_kw or {})
-    res = ctx.tlc(spec_dir, module, cfg_path, tag, dump_dot=dot, **kw)
+    res = ctx.tlc(spec_dir, module, cfg_path, tag, dump_dot=dot, defs=defs, **kw)
     if must_take:
         ctx.check_coverage(res, must_take, "%s/%s" % (module, cfg))
     if res.violation:
